@@ -4,6 +4,7 @@ import (
 	"fmt"
 	"sort"
 	"strings"
+	"sync"
 
 	"sigs.k8s.io/yaml"
 )
@@ -258,4 +259,65 @@ func (tr ToolResult) OutcomeKey() string {
 	}
 	sort.Strings(ks)
 	return strings.Join(ks, ";")
+}
+
+// ---------- the documented named-port-on-IP error, recognised behaviourally ----------
+
+var (
+	namedPortErrOnce sync.Once
+	namedPortErrSig  string
+)
+
+// namedPortProbeName is a policy name that occurs nowhere else in the harness.
+const namedPortProbeName = "zzprobe-named-port-policy"
+
+// NamedPortOnIPErrSignature returns the wording by which the tool reports its documented deviation (a named port that
+// would have to be resolved on an IP destination). The wording is not hard-wired: it is read off the tree under test by
+// analysing the canonical input of the deviation once (one workload, one egress rule with a named port and an ipBlock
+// peer) and keeping the part of the message that follows the policy's name. A tree that words the message differently
+// is therefore treated alike; a tree that does not fail on the canonical input has no such deviation (empty signature,
+// nothing is excused).
+func NamedPortOnIPErrSignature() string {
+	namedPortErrOnce.Do(func() {
+		w := &World{
+			NSs: []NS{{Name: "ns1", HasObj: true}},
+			WLs: []Workload{{Kind: "Deployment", NS: "ns1", Name: "w1", Labels: map[string]string{"app": "a"}, Replicas: 1, Ports: []CPort{{Name: "http", Num: 80}}}},
+			NPs: []NP{{NS: "ns1", Name: namedPortProbeName, Types: []string{"Egress"},
+				Egress: []NPRule{{Peers: []NPPeer{{CIDR: "10.0.0.0/8"}}, Ports: []NPPort{{HasPort: true, Name: "http"}}}}}},
+		}
+		res, _ := RunList(w.Infos(), false)
+		if res.Err == nil {
+			return
+		}
+		msg := res.Err.Error()
+		sig := msg
+		if i := strings.LastIndex(msg, namedPortProbeName); i >= 0 {
+			sig = msg[i+len(namedPortProbeName):]
+		}
+		sig = strings.TrimLeft(sig, " :'\"`)]")
+		// the last clause of the message is the stable part ("<title>: <what>")
+		if i := strings.LastIndex(sig, ": "); i >= 0 && len(sig)-i > 12 {
+			sig = sig[i+2:]
+		}
+		namedPortErrSig = strings.TrimSpace(sig)
+		if namedPortErrSig == "" { // the message ends with the policy's name: keep what precedes it
+			namedPortErrSig = strings.TrimSpace(strings.SplitN(msg, namedPortProbeName, 2)[0])
+		}
+	})
+	return namedPortErrSig
+}
+
+// IsNamedPortOnIPErr: err is the documented named-port-on-IP error of the tree under test.
+func IsNamedPortOnIPErr(err error) bool {
+	if err == nil {
+		return false
+	}
+	sig := NamedPortOnIPErrSignature()
+	return sig != "" && strings.Contains(err.Error(), sig)
+}
+
+// IsNamedPortOnIPErrText is IsNamedPortOnIPErr for a message kept as text.
+func IsNamedPortOnIPErrText(msg string) bool {
+	sig := NamedPortOnIPErrSignature()
+	return sig != "" && strings.Contains(msg, sig)
 }
